@@ -137,14 +137,15 @@ impl Loop {
                 }
             };
 
+            // parameter values span the whole i32 range: saturate like parse_next_number does
             if add_step_value {
-                value += x;
+                value = value.saturating_add(x);
             }
             if subtract_const_value {
-                value = x - value;
+                value = x.saturating_sub(value);
             }
             if subtract_x_step {
-                value -= x;
+                value = value.saturating_sub(x);
             }
             parameters.push(value);
         }
@@ -152,10 +153,11 @@ impl Loop {
         let res = exe.lock().unwrap().execute_command(buf, caret, self.command, &parameters, &self.parsed_string);
         // todo: correct delay?
         std::thread::sleep(Duration::from_millis(200 * self.delay as u64));
+        // a counter that saturates has passed `to`: the loop ends
         if self.from < self.to {
-            self.i += self.step;
+            self.i = self.i.saturating_add(self.step);
         } else {
-            self.i -= self.step;
+            self.i = self.i.saturating_sub(self.step);
         }
 
         match res {
